@@ -1,300 +1,372 @@
-(* C16: Set<T> and BoundedSet<BOUND, T> over canonical sorted lists. *)
+(* C16: Set<T> and BoundedSet<BOUND, T> over canonical sorted lists, for every element type T: Ord. *)
 From Coq Require Import List ZArith Bool Lia.
 From AV Require Import Lattice.LatModel.
 From AV Require Import Lattice.LatLaws.
+From AV Require Import Lattice.LatTotal.
 Import ListNotations.
 Open Scope Z_scope.
 
-(* ---------------------------------------------------------------- sorted lists as sets *)
-Lemma contains_In s x : set_contains s x = true <-> In x s.
-Proof.
-  induction s as [|y s IH]; cbn; [split; [discriminate|tauto]|].
-  rewrite orb_true_iff, Z.eqb_eq, IH. split; intros [H|H]; auto.
-Qed.
+Section SetOK.
+  Variable E : LatImpl.
+  Hypothesis OKE : LatOK E.
+  Hypothesis HO : has_ord E = true.
+  Notation elt := (carrier E).
+  Notation c := (cmp_of E).
+  Notation W := (wf E).
+  Notation WS := (Forall (wf E)).
 
-Lemma insert_In x s y : In y (set_insert x s) <-> y = x \/ In y s.
-Proof.
-  induction s as [|z s IH]; cbn; [intuition|].
-  destruct (Z.compare_spec x z) as [E|E|E]; cbn.
-  - subst. intuition congruence.
-  - intuition congruence.
-  - rewrite IH. intuition congruence.
-Qed.
+  Let TO : TotalOrd (wf E) (cmp_of E) := proj1 (ok_cmp_of E OKE HO).
 
-Lemma sorted_cons x s : set_sorted (x :: s) = true <-> (forall y, In y s -> x < y) /\ set_sorted s = true.
-Proof.
-  revert x. induction s as [|z s IH]; intros x.
-  - cbn. split; [intros _; split; [intros y []|reflexivity]|reflexivity].
-  - change (set_sorted (x :: z :: s)) with (Z.ltb x z && set_sorted (z :: s)).
-    rewrite andb_true_iff, Z.ltb_lt. split.
-    + intros [H1 H2]. split; [|exact H2]. intros y [<-|Hy]; [exact H1|].
-      apply IH in H2. destruct H2 as [H2 _]. specialize (H2 y Hy). lia.
-    + intros [H1 H2]. split; [apply H1; left; reflexivity|exact H2].
-Qed.
+  Lemma c_refl x : W x -> c x x = Eq.
+  Proof. intros Hx. apply (to_eq _ _ TO); auto. Qed.
+  Lemma c_eq x y : W x -> W y -> c x y = Eq -> x = y.
+  Proof. intros Hx Hy. apply (to_eq _ _ TO); auto. Qed.
+  Lemma c_lt_gt x y : W x -> W y -> c x y = Lt -> c y x = Gt.
+  Proof. intros Hx Hy H. rewrite (to_flip _ _ TO x y), H by auto. reflexivity. Qed.
+  Lemma c_gt_lt x y : W x -> W y -> c x y = Gt -> c y x = Lt.
+  Proof. intros Hx Hy H. rewrite (to_flip _ _ TO x y), H by auto. reflexivity. Qed.
+  Lemma c_lt_irrefl x : W x -> c x x <> Lt.
+  Proof. intros Hx. rewrite c_refl by auto. discriminate. Qed.
+  Lemma c_lt_asym x y : W x -> W y -> c x y = Lt -> c y x = Lt -> False.
+  Proof. intros Hx Hy H1 H2. rewrite (c_lt_gt x y) in H2 by auto. discriminate. Qed.
 
-Lemma insert_sorted x s : set_sorted s = true -> set_sorted (set_insert x s) = true.
-Proof.
-  induction s as [|z s IH]; intros H; [reflexivity|]. cbn [set_insert].
-  destruct (Z.compare_spec x z) as [E|E|E].
-  - exact H.
-  - apply sorted_cons. split; [|exact H]. apply sorted_cons in H. destruct H as [H _].
-    intros y [<-|Hy]; [exact E|]. specialize (H y Hy). lia.
-  - apply sorted_cons in H. destruct H as [H1 H2]. apply sorted_cons. split; [|auto].
-    intros y Hy. apply insert_In in Hy. destruct Hy as [->|Hy]; [exact E|auto].
-Qed.
+  Lemma WS_cons x s : WS (x :: s) <-> W x /\ WS s.
+  Proof. split; [intros H; inversion H; auto | intros [H1 H2]; constructor; auto]. Qed.
+  Lemma WS_In s x : WS s -> In x s -> W x.
+  Proof. intros H. rewrite Forall_forall in H. auto. Qed.
+  Lemma wfb_WS s : forallb (wfb E) s = true <-> WS s.
+  Proof. rewrite forallb_forall, Forall_forall. reflexivity. Qed.
 
-Lemma sorted_NoDup s : set_sorted s = true -> NoDup s.
-Proof.
-  induction s as [|x s IH]; intros H; [constructor|]. apply sorted_cons in H. destruct H as [H1 H2].
-  constructor; [|auto]. intros Hin. specialize (H1 x Hin). lia.
-Qed.
-
-Lemma sorted_ext a : forall b, set_sorted a = true -> set_sorted b = true -> (forall x, In x a <-> In x b) -> a = b.
-Proof.
-  induction a as [|x a IH]; intros [|y b] Ha Hb H.
-  - reflexivity.
-  - exfalso. apply (proj2 (H y)). left; reflexivity.
-  - exfalso. apply (proj1 (H x)). left; reflexivity.
-  - apply sorted_cons in Ha, Hb. destruct Ha as [La Sa], Hb as [Lb Sb].
-    assert (x = y).
-    { destruct (proj1 (H x) (or_introl eq_refl)) as [E|E]; [auto|].
-      destruct (proj2 (H y) (or_introl eq_refl)) as [E'|E']; [auto|].
-      specialize (La y E'). specialize (Lb x E). lia. }
-    subst y. f_equal. apply IH; auto. intros z. split; intros Hz.
-    + destruct (proj1 (H z) (or_intror Hz)) as [E|E]; [|exact E]. specialize (La z Hz). lia.
-    + destruct (proj2 (H z) (or_intror Hz)) as [E|E]; [|exact E]. specialize (Lb z Hz). lia.
-Qed.
-
-Lemma subset_incl a b : set_is_subset a b = true <-> incl a b.
-Proof.
-  unfold set_is_subset, incl. rewrite forallb_forall. split; intros H x Hx; [apply contains_In|apply contains_In]; auto.
-Qed.
-
-Lemma zlist_eqb_spec : forall a b, list_eqb Z.eqb a b = true <-> a = b.
-Proof.
-  induction a as [|x a IH]; intros [|y b]; cbn; try (split; congruence).
-  rewrite andb_true_iff, Z.eqb_eq, IH. split; [intros [-> ->]; reflexivity|intros X; injection X as -> ->; auto].
-Qed.
-Lemma zlist_eqb_refl a : list_eqb Z.eqb a a = true.
-Proof. apply zlist_eqb_spec. reflexivity. Qed.
-
-(* a sorted superset (subset) of the same length is the same set *)
-Lemma len_flag_sup a r : set_sorted a = true -> set_sorted r = true -> incl a r ->
-  negb (Z.eqb (set_len a) (set_len r)) = negb (list_eqb Z.eqb r a).
-Proof.
-  intros Sa Sr I. f_equal. unfold set_len.
-  destruct (list_eqb Z.eqb r a) eqn:E.
-  - apply zlist_eqb_spec in E. subst. apply Z.eqb_refl.
-  - apply Z.eqb_neq. intros Len. apply Nat2Z.inj in Len.
-    assert (r = a); [|subst; rewrite zlist_eqb_refl in E; discriminate].
-    apply sorted_ext; auto. intros x. split; [|apply I].
-    apply (NoDup_length_incl (sorted_NoDup a Sa)); [lia|exact I].
-Qed.
-Lemma len_flag_sub a r : set_sorted a = true -> set_sorted r = true -> incl r a ->
-  negb (Z.eqb (set_len a) (set_len r)) = negb (list_eqb Z.eqb r a).
-Proof.
-  intros Sa Sr I. f_equal. unfold set_len.
-  destruct (list_eqb Z.eqb r a) eqn:E.
-  - apply zlist_eqb_spec in E. subst. apply Z.eqb_refl.
-  - apply Z.eqb_neq. intros Len. apply Nat2Z.inj in Len.
-    assert (r = a); [|subst; rewrite zlist_eqb_refl in E; discriminate].
-    apply sorted_ext; auto. intros x. split; [apply I|].
-    apply (NoDup_length_incl (sorted_NoDup r Sr)); [lia|exact I].
-Qed.
-
-(* the two loops *)
-Lemma fold_insert_spec o : forall s,
-  (forall y, In y (fold_left (fun acc item => set_insert item acc) o s) <-> In y o \/ In y s) /\
-  (set_sorted s = true -> set_sorted (fold_left (fun acc item => set_insert item acc) o s) = true).
-Proof.
-  induction o as [|i o IH]; intros s; cbn [fold_left].
-  - split; [intros y; cbn; tauto|auto].
-  - destruct (IH (set_insert i s)) as [H1 H2]. split.
-    + intros y. rewrite H1, insert_In. cbn. intuition.
-    + intros S. apply H2, insert_sorted, S.
-Qed.
-Lemma fold_filter_spec other old : forall s,
-  (forall y, In y (fold_left (fun acc item => if set_contains other item then set_insert item acc else acc) old s)
-             <-> (In y old /\ In y other) \/ In y s) /\
-  (set_sorted s = true ->
-   set_sorted (fold_left (fun acc item => if set_contains other item then set_insert item acc else acc) old s) = true).
-Proof.
-  induction old as [|i old IH]; intros s; cbn [fold_left].
-  - split; [intros y; cbn; tauto|auto].
-  - destruct (set_contains other i) eqn:E.
-    + destruct (IH (set_insert i s)) as [H1 H2]. apply contains_In in E. split.
-      * intros y. rewrite H1, insert_In. cbn. intuition; subst; auto.
-      * intros S. apply H2, insert_sorted, S.
-    + destruct (IH s) as [H1 H2]. split; [|exact H2].
-      intros y. rewrite H1. cbn. intuition. subst. apply contains_In in H3. congruence.
-Qed.
-
-Definition set_j (a b : list Z) : list Z := fst (set_join_mut a b).
-Definition set_m (a b : list Z) : list Z := fst (set_meet_mut a b).
-
-Lemma set_j_In a b y : In y (set_j a b) <-> In y a \/ In y b.
-Proof.
-  unfold set_j, set_join_mut. destruct (Z.ltb (set_len a) (set_len b)); cbn [fst].
-  - rewrite (proj1 (fold_insert_spec a b)). tauto.
-  - rewrite (proj1 (fold_insert_spec b a)). tauto.
-Qed.
-Lemma set_j_sorted a b : set_sorted a = true -> set_sorted b = true -> set_sorted (set_j a b) = true.
-Proof.
-  intros Sa Sb. unfold set_j, set_join_mut. destruct (Z.ltb (set_len a) (set_len b)); cbn [fst].
-  - apply (proj2 (fold_insert_spec a b)); auto.
-  - apply (proj2 (fold_insert_spec b a)); auto.
-Qed.
-Lemma set_join_mut_spec a b : set_sorted a = true -> set_sorted b = true ->
-  set_join_mut a b = (set_j a b, negb (list_eqb Z.eqb (set_j a b) a)).
-Proof.
-  intros Sa Sb. rewrite <- (len_flag_sup a (set_j a b)); auto.
-  - unfold set_j, set_join_mut. destruct (Z.ltb (set_len a) (set_len b)); reflexivity.
-  - apply set_j_sorted; auto.
-  - intros x Hx. apply set_j_In. auto.
-Qed.
-
-Lemma gtb_nil b : Z.gtb (set_len []) (set_len b) = false.
-Proof. rewrite Z.gtb_ltb. apply Z.ltb_ge. unfold set_len; cbn. lia. Qed.
-
-Lemma set_m_In a b y : In y (set_m a b) <-> In y a /\ In y b.
-Proof.
-  unfold set_m, set_meet_mut. rewrite (gtb_nil b).
-  cbn [fst]. rewrite (proj1 (fold_filter_spec b a [])). cbn. tauto.
-Qed.
-Lemma set_m_sorted a b : set_sorted (set_m a b) = true.
-Proof.
-  unfold set_m, set_meet_mut. rewrite (gtb_nil b).
-  cbn [fst]. apply (proj2 (fold_filter_spec b a [])). reflexivity.
-Qed.
-Lemma set_meet_mut_spec a b : set_sorted a = true ->
-  set_meet_mut a b = (set_m a b, negb (list_eqb Z.eqb (set_m a b) a)).
-Proof.
-  intros Sa. rewrite <- (len_flag_sub a (set_m a b)); auto.
-  - unfold set_m, set_meet_mut. rewrite (gtb_nil b).
-    reflexivity.
-  - apply set_m_sorted.
-  - intros x Hx. apply set_m_In in Hx. tauto.
-Qed.
-
-(* the order *)
-Lemma set_le_incl a b : ople (set_pcmp a b) = true <-> incl a b.
-Proof.
-  unfold set_pcmp. destruct (list_eqb Z.eqb a b) eqn:E.
-  - apply zlist_eqb_spec in E. subst. cbn. split; [intros _; apply incl_refl|reflexivity].
-  - destruct (set_is_subset a b) eqn:S.
-    + cbn. apply subset_incl in S. tauto.
-    + assert (~ incl a b) by (rewrite <- subset_incl; congruence).
-      destruct (set_is_subset b a); cbn; split; intros; try discriminate; contradiction.
-Qed.
-Lemma set_pcmp_eq a b : set_pcmp a b = Some Eq <-> a = b.
-Proof.
-  unfold set_pcmp. destruct (list_eqb Z.eqb a b) eqn:E.
-  - apply zlist_eqb_spec in E. tauto.
-  - split.
-    + destruct (set_is_subset a b); [discriminate|]. destruct (set_is_subset b a); discriminate.
-    + intros ->. rewrite zlist_eqb_refl in E. discriminate.
-Qed.
-Lemma set_pcmp_flip a b : set_sorted a = true -> set_sorted b = true ->
-  set_pcmp b a = option_map CompOpp (set_pcmp a b).
-Proof.
-  intros Sa Sb. unfold set_pcmp. destruct (list_eqb Z.eqb a b) eqn:E.
-  - apply zlist_eqb_spec in E. subst. rewrite zlist_eqb_refl. reflexivity.
-  - assert (E' : list_eqb Z.eqb b a = false).
-    { destruct (list_eqb Z.eqb b a) eqn:X; auto. apply zlist_eqb_spec in X. subst. rewrite zlist_eqb_refl in E. discriminate. }
-    rewrite E'. destruct (set_is_subset a b) eqn:S1, (set_is_subset b a) eqn:S2; try reflexivity.
-    exfalso. apply subset_incl in S1, S2. assert (a = b) by (apply sorted_ext; auto; intros x; split; auto).
-    subst. rewrite zlist_eqb_refl in E. discriminate.
-Qed.
-
-Lemma SetLat_ok : LatOK SetLat.
-Proof.
-  assert (LE : forall a b, le SetLat a b <-> incl a b) by (intros; apply set_le_incl).
-  constructor; cbn; change (wf SetLat) with (fun s => set_sorted s = true); cbn beta.
-  - apply zlist_eqb_spec.
-  - intros a b _ _. apply set_pcmp_eq.
-  - apply set_pcmp_flip.
-  - intros a b c _ _ _. rewrite !LE. apply incl_tran.
-  - intros a b Sa Sb. apply set_j_sorted; auto.
-  - intros a b _ _. apply set_m_sorted.
-  - intros a b _ _. apply LE. intros x Hx. apply set_j_In. auto.
-  - intros a b _ _. apply LE. intros x Hx. apply set_j_In. auto.
-  - intros a b c _ _ _. rewrite !LE. intros H1 H2 x Hx. apply set_j_In in Hx. destruct Hx; auto.
-  - intros a b _ _. apply LE. intros x Hx. apply set_m_In in Hx. tauto.
-  - intros a b _ _. apply LE. intros x Hx. apply set_m_In in Hx. tauto.
-  - intros a b c _ _ _. rewrite !LE. intros H1 H2 x Hx. apply set_m_In. auto.
-  - apply set_join_mut_spec.
-  - intros a b Sa _. apply set_meet_mut_spec; auto.
-  - discriminate.
-  - discriminate.
-Qed.
-
-(* ---------------------------------------------------------------- BoundedSet<BOUND, T> *)
-Lemma incl_len (a b : list Z) : NoDup a -> incl a b -> set_len a <= set_len b.
-Proof. intros N I. unfold set_len. apply Nat2Z.inj_le. apply NoDup_incl_length; auto. Qed.
-
-Section BSetOK.
-  Variable n : Z.
-  Hypothesis Hn : 0 <= n.
-  Notation Bn := (BSetLat n).
-
-  Lemma bset_wf_some s : wf Bn (Some s) <-> set_sorted s = true /\ set_len s <= n.
-  Proof. unfold wf; cbn. rewrite andb_true_iff, Z.leb_le. tauto. Qed.
-  Lemma bset_le_top a : le Bn a None.
-  Proof. destruct a; reflexivity. Qed.
-  Lemma bset_le_top_some s : ~ le Bn None (Some s).
-  Proof. unfold le, ple; cbn. discriminate. Qed.
-  Lemma bset_le_some a b : le Bn (Some a) (Some b) <-> incl a b.
-  Proof. apply set_le_incl. Qed.
-
-  Lemma bset_jv_some a b : jv Bn (Some a) (Some b) = if Z.gtb (set_len (set_j a b)) n then None else Some (set_j a b).
-  Proof. reflexivity. Qed.
-  Lemma bset_mv_some a b : mv Bn (Some a) (Some b) = Some (set_m a b).
-  Proof. reflexivity. Qed.
-
-  Lemma BSetLat_ok : LatOK Bn.
+  (* ---------------------------------------------------------------- sorted lists as sets *)
+  Lemma contains_In s x : WS s -> W x -> (set_contains E s x = true <-> In x s).
   Proof.
+    intros Hs Hx. induction s as [|y s IH]; cbn; [split; [discriminate|tauto]|].
+    apply WS_cons in Hs. destruct Hs as [Hy Hs]. specialize (IH Hs).
+    destruct (c x y) eqn:C.
+    - apply c_eq in C; auto. subst. split; auto.
+    - rewrite IH. split; [auto|]. intros [->|H]; [|exact H]. rewrite c_refl in C by auto. discriminate.
+    - rewrite IH. split; [auto|]. intros [->|H]; [|exact H]. rewrite c_refl in C by auto. discriminate.
+  Qed.
+
+  Lemma insert_In x s y : WS s -> W x -> (In y (set_insert E x s) <-> y = x \/ In y s).
+  Proof.
+    intros Hs Hx. induction s as [|z s IH]; cbn; [intuition congruence|].
+    apply WS_cons in Hs. destruct Hs as [Hz Hs]. specialize (IH Hs).
+    destruct (c x z) eqn:C; cbn.
+    - apply c_eq in C; auto. subst. intuition congruence.
+    - intuition congruence.
+    - rewrite IH. intuition congruence.
+  Qed.
+  Lemma insert_WS x s : WS s -> W x -> WS (set_insert E x s).
+  Proof.
+    intros Hs Hx. apply Forall_forall. intros y Hy. apply insert_In in Hy; auto.
+    destruct Hy as [->|Hy]; [auto|eapply WS_In; eauto].
+  Qed.
+
+  Lemma sorted_cons x s : WS (x :: s) ->
+    (set_sorted E (x :: s) = true <-> (forall y, In y s -> c x y = Lt) /\ set_sorted E s = true).
+  Proof.
+    revert x. induction s as [|z s IH]; intros x Hs.
+    - cbn. split; [intros _; split; [intros y []|reflexivity]|reflexivity].
+    - apply WS_cons in Hs. destruct Hs as [Hx Hs]. assert (Hzs := Hs). apply WS_cons in Hs. destruct Hs as [Hz Hs].
+      change (set_sorted E (x :: z :: s)) with (match c x z with Lt => set_sorted E (z :: s) | _ => false end).
+      split.
+      + intros H. destruct (c x z) eqn:C; try discriminate. split; [|exact H].
+        intros y [<-|Hy]; [exact C|]. apply IH in H; auto. destruct H as [H _].
+        apply (to_lt_trans _ _ TO x z y); auto. exact (WS_In s y Hs Hy).
+      + intros [H1 H2]. rewrite (H1 z (or_introl eq_refl)). exact H2.
+  Qed.
+
+  Lemma insert_sorted x s : WS s -> W x -> set_sorted E s = true -> set_sorted E (set_insert E x s) = true.
+  Proof.
+    intros Hs Hx. induction s as [|z s IH]; intros H; [reflexivity|]. cbn [set_insert].
+    assert (Hzs := Hs). apply WS_cons in Hs. destruct Hs as [Hz Hs].
+    destruct (c x z) eqn:C.
+    - exact H.
+    - apply sorted_cons; [constructor; auto|]. split; [|exact H]. apply sorted_cons in H; auto. destruct H as [H _].
+      intros y [<-|Hy]; [exact C|]. apply (to_lt_trans _ _ TO x z y); auto. exact (WS_In s y Hs Hy).
+    - apply sorted_cons in H; auto. destruct H as [H1 H2].
+      apply sorted_cons; [constructor; auto; apply insert_WS; auto|]. split; [|auto].
+      intros y Hy. apply insert_In in Hy; auto. destruct Hy as [->|Hy]; [apply c_gt_lt; auto|auto].
+  Qed.
+
+  Lemma sorted_NoDup s : WS s -> set_sorted E s = true -> NoDup s.
+  Proof.
+    induction s as [|x s IH]; intros Hs H; [constructor|]. apply sorted_cons in H; auto. destruct H as [H1 H2].
+    apply WS_cons in Hs. destruct Hs as [Hx Hs].
+    constructor; [|auto]. intros Hin. specialize (H1 x Hin). apply (c_lt_irrefl x Hx H1).
+  Qed.
+
+  Lemma sorted_ext a : forall b, WS a -> WS b -> set_sorted E a = true -> set_sorted E b = true ->
+    (forall x, In x a <-> In x b) -> a = b.
+  Proof.
+    induction a as [|x a IH]; intros [|y b] Wa Wb Ha Hb H.
+    - reflexivity.
+    - exfalso. apply (proj2 (H y)). left; reflexivity.
+    - exfalso. apply (proj1 (H x)). left; reflexivity.
+    - apply sorted_cons in Ha, Hb; auto. destruct Ha as [La Sa], Hb as [Lb Sb].
+      apply WS_cons in Wa, Wb. destruct Wa as [Wx Wa], Wb as [Wy Wb].
+      assert (x = y).
+      { destruct (proj1 (H x) (or_introl eq_refl)) as [E0|E0]; [auto|].
+        destruct (proj2 (H y) (or_introl eq_refl)) as [E'|E']; [auto|].
+        exfalso. apply (c_lt_asym x y); auto. }
+      subst y. f_equal. apply IH; auto. intros z. split; intros Hz.
+      + destruct (proj1 (H z) (or_intror Hz)) as [E0|E0]; [|exact E0]. subst z. exfalso. apply (c_lt_irrefl x); auto.
+      + destruct (proj2 (H z) (or_intror Hz)) as [E0|E0]; [|exact E0]. subst z. exfalso. apply (c_lt_irrefl x); auto.
+  Qed.
+
+  Lemma subset_incl a b : WS a -> WS b -> (set_is_subset E a b = true <-> incl a b).
+  Proof.
+    intros Wa Wb. unfold set_is_subset, incl. rewrite forallb_forall.
+    split; intros H x Hx.
+    - apply contains_In; auto. exact (WS_In a x Wa Hx).
+    - apply contains_In; auto. exact (WS_In a x Wa Hx).
+  Qed.
+
+  Lemma elist_eqb_spec : forall a b, list_eqb (eqb E) a b = true <-> a = b.
+  Proof.
+    induction a as [|x a IH]; intros [|y b]; cbn; try (split; congruence).
+    rewrite andb_true_iff, (ok_eqb E OKE), IH. split; [intros [-> ->]; reflexivity|intros X; injection X as -> ->; auto].
+  Qed.
+  Lemma elist_eqb_refl a : list_eqb (eqb E) a a = true.
+  Proof. apply elist_eqb_spec. reflexivity. Qed.
+
+  (* a sorted superset (subset) of the same length is the same set *)
+  Lemma len_flag_sup a r : WS a -> WS r -> set_sorted E a = true -> set_sorted E r = true -> incl a r ->
+    negb (Z.eqb (set_len E a) (set_len E r)) = negb (list_eqb (eqb E) r a).
+  Proof.
+    intros Wa Wr Sa Sr I. f_equal. unfold set_len.
+    destruct (list_eqb (eqb E) r a) eqn:E0.
+    - apply elist_eqb_spec in E0. subst. apply Z.eqb_refl.
+    - apply Z.eqb_neq. intros Len. apply Nat2Z.inj in Len.
+      assert (r = a); [|subst; rewrite elist_eqb_refl in E0; discriminate].
+      apply sorted_ext; auto. intros x. split; [|apply I].
+      apply (NoDup_length_incl (sorted_NoDup a Wa Sa)); [lia|exact I].
+  Qed.
+  Lemma len_flag_sub a r : WS a -> WS r -> set_sorted E a = true -> set_sorted E r = true -> incl r a ->
+    negb (Z.eqb (set_len E a) (set_len E r)) = negb (list_eqb (eqb E) r a).
+  Proof.
+    intros Wa Wr Sa Sr I. f_equal. unfold set_len.
+    destruct (list_eqb (eqb E) r a) eqn:E0.
+    - apply elist_eqb_spec in E0. subst. apply Z.eqb_refl.
+    - apply Z.eqb_neq. intros Len. apply Nat2Z.inj in Len.
+      assert (r = a); [|subst; rewrite elist_eqb_refl in E0; discriminate].
+      apply sorted_ext; auto. intros x. split; [apply I|].
+      apply (NoDup_length_incl (sorted_NoDup r Wr Sr)); [lia|exact I].
+  Qed.
+
+  (* the two loops *)
+  Lemma fold_insert_spec o : forall s, WS o -> WS s ->
+    (forall y, In y (fold_left (fun acc item => set_insert E item acc) o s) <-> In y o \/ In y s) /\
+    WS (fold_left (fun acc item => set_insert E item acc) o s) /\
+    (set_sorted E s = true -> set_sorted E (fold_left (fun acc item => set_insert E item acc) o s) = true).
+  Proof.
+    induction o as [|i o IH]; intros s Wo Ws; cbn [fold_left].
+    - split; [intros y; cbn; tauto|auto].
+    - apply WS_cons in Wo. destruct Wo as [Wi Wo].
+      destruct (IH (set_insert E i s) Wo (insert_WS i s Ws Wi)) as [H1 [H2 H3]]. split; [|split].
+      + intros y. rewrite H1, insert_In by auto. cbn. intuition congruence.
+      + exact H2.
+      + intros S. apply H3, insert_sorted; auto.
+  Qed.
+  Lemma fold_filter_spec other old : forall s, WS other -> WS old -> WS s ->
+    (forall y, In y (fold_left (fun acc item => if set_contains E other item then set_insert E item acc else acc) old s)
+               <-> (In y old /\ In y other) \/ In y s) /\
+    WS (fold_left (fun acc item => if set_contains E other item then set_insert E item acc else acc) old s) /\
+    (set_sorted E s = true ->
+     set_sorted E (fold_left (fun acc item => if set_contains E other item then set_insert E item acc else acc) old s) = true).
+  Proof.
+    induction old as [|i old IH]; intros s Wot Wo Ws; cbn [fold_left].
+    - split; [intros y; cbn; tauto|auto].
+    - apply WS_cons in Wo. destruct Wo as [Wi Wo].
+      destruct (set_contains E other i) eqn:E0.
+      + destruct (IH (set_insert E i s) Wot Wo (insert_WS i s Ws Wi)) as [H1 [H2 H3]]. apply contains_In in E0; auto. split; [|split].
+        * intros y. rewrite H1, insert_In by auto. cbn. intuition (subst; auto).
+        * exact H2.
+        * intros S. apply H3, insert_sorted; auto.
+      + destruct (IH s Wot Wo Ws) as [H1 [H2 H3]]. split; [|split; [exact H2|exact H3]].
+        intros y. rewrite H1. cbn. intuition. subst.
+        match goal with H : In y other |- _ => apply contains_In in H; auto; congruence end.
+  Qed.
+
+  Definition set_j (a b : list elt) : list elt := fst (set_join_mut E a b).
+  Definition set_m (a b : list elt) : list elt := fst (set_meet_mut E a b).
+
+  Lemma set_j_spec a b : WS a -> WS b ->
+    (forall y, In y (set_j a b) <-> In y a \/ In y b) /\ WS (set_j a b) /\
+    (set_sorted E a = true -> set_sorted E b = true -> set_sorted E (set_j a b) = true).
+  Proof.
+    intros Wa Wb. unfold set_j, set_join_mut. destruct (Z.ltb (set_len E a) (set_len E b)); cbn [fst].
+    - destruct (fold_insert_spec a b Wa Wb) as [H1 [H2 H3]]. split; [intros y; rewrite H1; tauto|]. split; auto.
+    - destruct (fold_insert_spec b a Wb Wa) as [H1 [H2 H3]]. split; [intros y; rewrite H1; tauto|]. split; auto.
+  Qed.
+  Lemma set_join_mut_spec a b : WS a -> WS b -> set_sorted E a = true -> set_sorted E b = true ->
+    set_join_mut E a b = (set_j a b, negb (list_eqb (eqb E) (set_j a b) a)).
+  Proof.
+    intros Wa Wb Sa Sb. destruct (set_j_spec a b Wa Wb) as [H1 [H2 H3]].
+    rewrite <- (len_flag_sup a (set_j a b)); auto.
+    - unfold set_j, set_join_mut. destruct (Z.ltb (set_len E a) (set_len E b)); reflexivity.
+    - intros x Hx. apply H1. auto.
+  Qed.
+
+  Lemma gtb_nil b : Z.gtb (set_len E []) (set_len E b) = false.
+  Proof. rewrite Z.gtb_ltb. apply Z.ltb_ge. unfold set_len; cbn. lia. Qed.
+
+  Lemma set_m_spec a b : WS a -> WS b ->
+    (forall y, In y (set_m a b) <-> In y a /\ In y b) /\ WS (set_m a b) /\ set_sorted E (set_m a b) = true.
+  Proof.
+    intros Wa Wb. unfold set_m, set_meet_mut. rewrite (gtb_nil b). cbn [fst].
+    destruct (fold_filter_spec b a [] Wb Wa (Forall_nil _)) as [H1 [H2 H3]].
+    split; [intros y; rewrite H1; cbn; tauto|]. split; [exact H2|apply H3; reflexivity].
+  Qed.
+  Lemma set_meet_mut_spec a b : WS a -> WS b -> set_sorted E a = true ->
+    set_meet_mut E a b = (set_m a b, negb (list_eqb (eqb E) (set_m a b) a)).
+  Proof.
+    intros Wa Wb Sa. destruct (set_m_spec a b Wa Wb) as [H1 [H2 H3]].
+    rewrite <- (len_flag_sub a (set_m a b)); auto.
+    - unfold set_m, set_meet_mut. rewrite (gtb_nil b). reflexivity.
+    - intros x Hx. apply H1 in Hx. tauto.
+  Qed.
+
+  (* the order *)
+  Lemma set_le_incl a b : WS a -> WS b -> (ople (set_pcmp E a b) = true <-> incl a b).
+  Proof.
+    intros Wa Wb. unfold set_pcmp. destruct (list_eqb (eqb E) a b) eqn:E0.
+    - apply elist_eqb_spec in E0. subst. cbn. split; [intros _; apply incl_refl|reflexivity].
+    - destruct (set_is_subset E a b) eqn:S.
+      + cbn. apply subset_incl in S; auto. tauto.
+      + assert (~ incl a b) by (rewrite <- subset_incl by auto; congruence).
+        destruct (set_is_subset E b a); cbn; split; intros; try discriminate; contradiction.
+  Qed.
+  Lemma set_pcmp_eq a b : set_pcmp E a b = Some Eq <-> a = b.
+  Proof.
+    unfold set_pcmp. destruct (list_eqb (eqb E) a b) eqn:E0.
+    - apply elist_eqb_spec in E0. tauto.
+    - split.
+      + destruct (set_is_subset E a b); [discriminate|]. destruct (set_is_subset E b a); discriminate.
+      + intros ->. rewrite elist_eqb_refl in E0. discriminate.
+  Qed.
+  Lemma set_pcmp_flip a b : WS a -> WS b -> set_sorted E a = true -> set_sorted E b = true ->
+    set_pcmp E b a = option_map CompOpp (set_pcmp E a b).
+  Proof.
+    intros Wa Wb Sa Sb. unfold set_pcmp. destruct (list_eqb (eqb E) a b) eqn:E0.
+    - apply elist_eqb_spec in E0. subst. rewrite elist_eqb_refl. reflexivity.
+    - assert (E' : list_eqb (eqb E) b a = false).
+      { destruct (list_eqb (eqb E) b a) eqn:X; auto. apply elist_eqb_spec in X. subst. rewrite elist_eqb_refl in E0. discriminate. }
+      rewrite E'. destruct (set_is_subset E a b) eqn:S1, (set_is_subset E b a) eqn:S2; try reflexivity.
+      exfalso. apply subset_incl in S1, S2; auto. assert (a = b) by (apply sorted_ext; auto; intros x; split; auto).
+      subst. rewrite elist_eqb_refl in E0. discriminate.
+  Qed.
+
+  Lemma set_wf s : wf (SetLat E) s <-> WS s /\ set_sorted E s = true.
+  Proof. unfold wf; cbn. rewrite andb_true_iff, wfb_WS. reflexivity. Qed.
+
+  Lemma SetLat_ok : LatOK (SetLat E).
+  Proof.
+    assert (LE : forall a b, WS a -> WS b -> (le (SetLat E) a b <-> incl a b)) by (intros; apply set_le_incl; auto).
     constructor.
-    - intros [a|] [b|]; cbn; try (split; congruence). rewrite zlist_eqb_spec. split; congruence.
-    - intros [a|] [b|] _ _; cbn; try (split; congruence). rewrite set_pcmp_eq. split; congruence.
-    - intros [a|] [b|] Ha Hb; cbn; try reflexivity. apply bset_wf_some in Ha, Hb. apply set_pcmp_flip; tauto.
-    - intros [a|] [b|] [c|] _ _ _ H1 H2; try apply bset_le_top; try (exfalso; eapply bset_le_top_some; eassumption).
-      apply bset_le_some. apply bset_le_some in H1, H2. eapply incl_tran; eauto.
-    - intros [a|] [b|] Ha Hb; try reflexivity. rewrite bset_jv_some.
-      apply bset_wf_some in Ha, Hb. destruct (Z.gtb (set_len (set_j a b)) n) eqn:G; [reflexivity|].
-      apply bset_wf_some. split; [apply set_j_sorted; tauto|]. rewrite Z.gtb_ltb in G. apply Z.ltb_ge in G. exact G.
-    - intros [a|] [b|] Ha Hb; try reflexivity; try assumption. rewrite bset_mv_some.
-      apply bset_wf_some in Ha, Hb. apply bset_wf_some. split; [apply set_m_sorted|].
-      apply Z.le_trans with (m := set_len a); [|tauto]. apply incl_len.
-      + apply sorted_NoDup, set_m_sorted.
-      + intros x Hx. apply set_m_In in Hx. tauto.
-    - intros [a|] [b|] _ _; try apply bset_le_top. rewrite bset_jv_some.
-      destruct (Z.gtb (set_len (set_j a b)) n); [apply bset_le_top|]. apply bset_le_some. intros x Hx. apply set_j_In. auto.
-    - intros [a|] [b|] _ _; try apply bset_le_top. rewrite bset_jv_some.
-      destruct (Z.gtb (set_len (set_j a b)) n); [apply bset_le_top|]. apply bset_le_some. intros x Hx. apply set_j_In. auto.
-    - intros [a|] [b|] [c|] Ha Hb Hc H1 H2; try apply bset_le_top; try (exfalso; eapply bset_le_top_some; eassumption).
-      rewrite bset_jv_some. apply bset_le_some in H1, H2. apply bset_wf_some in Ha, Hb, Hc.
-      assert (I : incl (set_j a b) c) by (intros x Hx; apply set_j_In in Hx; destruct Hx; auto).
-      assert (Len := incl_len _ _ (sorted_NoDup _ (set_j_sorted a b (proj1 Ha) (proj1 Hb))) I).
-      replace (Z.gtb (set_len (set_j a b)) n) with false by (symmetry; rewrite Z.gtb_ltb; apply Z.ltb_ge; lia).
-      apply bset_le_some. exact I.
-    - intros [a|] [b|] Ha Hb; try apply bset_le_top.
-      + rewrite bset_mv_some. apply bset_le_some. intros x Hx. apply set_m_In in Hx. tauto.
-      + apply bset_le_some, incl_refl.
-    - intros [a|] [b|] Ha Hb; try apply bset_le_top.
-      + rewrite bset_mv_some. apply bset_le_some. intros x Hx. apply set_m_In in Hx. tauto.
-      + apply bset_le_some, incl_refl.
-    - intros [a|] [b|] [c|] Ha Hb Hc H1 H2; try apply bset_le_top; try (exfalso; eapply bset_le_top_some; eassumption); try assumption.
-      rewrite bset_mv_some. apply bset_le_some in H1, H2. apply bset_le_some. intros x Hx. apply set_m_In. auto.
-    - intros [a|] [b|] Ha Hb; try reflexivity.
-      rewrite bset_jv_some. apply bset_wf_some in Ha, Hb. cbn [jm BSetLat bset_join_mut].
-      rewrite set_join_mut_spec by tauto. destruct (Z.gtb (set_len (set_j a b)) n); reflexivity.
-    - intros [a|] [b|] Ha Hb; try reflexivity.
-      + rewrite bset_mv_some. apply bset_wf_some in Ha. cbn [mm BSetLat bset_meet_mut].
-        rewrite set_meet_mut_spec by tauto. reflexivity.
-      + cbn. rewrite zlist_eqb_refl. reflexivity.
-    - intros bo tp E. injection E as <- <-. split; [apply bset_wf_some; split; [reflexivity|unfold set_len; cbn; lia]|].
-      split; [reflexivity|]. intros a _. split; [|apply bset_le_top].
-      destruct a as [s|]; [apply bset_le_some; intros x []|apply bset_le_top].
+    - apply elist_eqb_spec.
+    - intros a b _ _. apply set_pcmp_eq.
+    - intros a b Ha Hb. apply set_wf in Ha, Hb. apply set_pcmp_flip; tauto.
+    - intros a b d Ha Hb Hd. apply set_wf in Ha, Hb, Hd. rewrite !LE by tauto. apply incl_tran.
+    - intros a b Ha Hb. apply set_wf in Ha, Hb. apply set_wf. destruct (set_j_spec a b (proj1 Ha) (proj1 Hb)) as [H1 [H2 H3]].
+      split; [exact H2|apply H3; tauto].
+    - intros a b Ha Hb. apply set_wf in Ha, Hb. apply set_wf. destruct (set_m_spec a b (proj1 Ha) (proj1 Hb)) as [H1 [H2 H3]]. auto.
+    - intros a b Ha Hb. apply set_wf in Ha, Hb. destruct (set_j_spec a b (proj1 Ha) (proj1 Hb)) as [H1 [H2 H3]].
+      apply LE; try tauto. intros x Hx. apply H1. auto.
+    - intros a b Ha Hb. apply set_wf in Ha, Hb. destruct (set_j_spec a b (proj1 Ha) (proj1 Hb)) as [H1 [H2 H3]].
+      apply LE; try tauto. intros x Hx. apply H1. auto.
+    - intros a b d Ha Hb Hd. apply set_wf in Ha, Hb, Hd. destruct (set_j_spec a b (proj1 Ha) (proj1 Hb)) as [H1 [H2 H3]].
+      rewrite !LE by tauto. intros I1 I2 x Hx. apply H1 in Hx. destruct Hx; auto.
+    - intros a b Ha Hb. apply set_wf in Ha, Hb. destruct (set_m_spec a b (proj1 Ha) (proj1 Hb)) as [H1 [H2 H3]].
+      apply LE; try tauto. intros x Hx. apply H1 in Hx. tauto.
+    - intros a b Ha Hb. apply set_wf in Ha, Hb. destruct (set_m_spec a b (proj1 Ha) (proj1 Hb)) as [H1 [H2 H3]].
+      apply LE; try tauto. intros x Hx. apply H1 in Hx. tauto.
+    - intros a b d Ha Hb Hd. apply set_wf in Ha, Hb, Hd. destruct (set_m_spec a b (proj1 Ha) (proj1 Hb)) as [H1 [H2 H3]].
+      rewrite !LE by tauto. intros I1 I2 x Hx. apply H1. auto.
+    - intros a b Ha Hb. apply set_wf in Ha, Hb. apply set_join_mut_spec; tauto.
+    - intros a b Ha Hb. apply set_wf in Ha, Hb. apply set_meet_mut_spec; tauto.
+    - discriminate.
     - discriminate.
   Qed.
-End BSetOK.
+
+  (* ---------------------------------------------------------------- BoundedSet<BOUND, T> *)
+  Lemma incl_len (a b : list elt) : NoDup a -> incl a b -> set_len E a <= set_len E b.
+  Proof. intros N I. unfold set_len. apply Nat2Z.inj_le. apply NoDup_incl_length; auto. Qed.
+
+  Section BSetOK.
+    Variable n : Z.
+    Hypothesis Hn : 0 <= n.
+    Notation Bn := (BSetLat E n).
+
+    Lemma bset_wf_some s : wf Bn (Some s) <-> WS s /\ set_sorted E s = true /\ set_len E s <= n.
+    Proof. unfold wf; cbn. rewrite !andb_true_iff, Z.leb_le, wfb_WS. tauto. Qed.
+    Lemma bset_le_top a : le Bn a None.
+    Proof. destruct a; reflexivity. Qed.
+    Lemma bset_le_top_some s : ~ le Bn None (Some s).
+    Proof. unfold le, ple; cbn. discriminate. Qed.
+    Lemma bset_le_some a b : WS a -> WS b -> (le Bn (Some a) (Some b) <-> incl a b).
+    Proof. apply set_le_incl. Qed.
+    Lemma bset_jv_some a b : jv Bn (Some a) (Some b) = if Z.gtb (set_len E (set_j a b)) n then None else Some (set_j a b).
+    Proof. reflexivity. Qed.
+    Lemma bset_mv_some a b : mv Bn (Some a) (Some b) = Some (set_m a b).
+    Proof. reflexivity. Qed.
+
+    Lemma BSetLat_ok : LatOK Bn.
+    Proof.
+      constructor.
+      - intros [a|] [b|]; cbn; try (split; congruence). rewrite elist_eqb_spec. split; congruence.
+      - intros [a|] [b|] _ _; cbn; try (split; congruence). rewrite set_pcmp_eq. split; congruence.
+      - intros [a|] [b|] Ha Hb; cbn; try reflexivity. apply bset_wf_some in Ha, Hb. apply set_pcmp_flip; tauto.
+      - intros [a|] [b|] [d|] Ha Hb Hd H1 H2; try apply bset_le_top; try (exfalso; eapply bset_le_top_some; eassumption).
+        apply bset_wf_some in Ha, Hb, Hd. apply bset_le_some; try tauto. apply bset_le_some in H1, H2; try tauto. eapply incl_tran; eauto.
+      - intros [a|] [b|] Ha Hb; try reflexivity. rewrite bset_jv_some.
+        apply bset_wf_some in Ha, Hb. destruct (set_j_spec a b (proj1 Ha) (proj1 Hb)) as [H1 [H2 H3]].
+        destruct (Z.gtb (set_len E (set_j a b)) n) eqn:G; [reflexivity|].
+        apply bset_wf_some. split; [exact H2|]. split; [apply H3; tauto|]. rewrite Z.gtb_ltb in G. apply Z.ltb_ge in G. exact G.
+      - intros [a|] [b|] Ha Hb; try reflexivity; try assumption. rewrite bset_mv_some.
+        apply bset_wf_some in Ha, Hb. destruct (set_m_spec a b (proj1 Ha) (proj1 Hb)) as [H1 [H2 H3]].
+        apply bset_wf_some. split; [exact H2|]. split; [exact H3|].
+        apply Z.le_trans with (m := set_len E a); [|tauto]. apply incl_len.
+        + apply sorted_NoDup; auto.
+        + intros x Hx. apply H1 in Hx. tauto.
+      - intros [a|] [b|] Ha Hb; try apply bset_le_top. rewrite bset_jv_some.
+        apply bset_wf_some in Ha, Hb. destruct (set_j_spec a b (proj1 Ha) (proj1 Hb)) as [H1 [H2 H3]].
+        destruct (Z.gtb (set_len E (set_j a b)) n); [apply bset_le_top|]. apply bset_le_some; try tauto. intros x Hx. apply H1. auto.
+      - intros [a|] [b|] Ha Hb; try apply bset_le_top. rewrite bset_jv_some.
+        apply bset_wf_some in Ha, Hb. destruct (set_j_spec a b (proj1 Ha) (proj1 Hb)) as [H1 [H2 H3]].
+        destruct (Z.gtb (set_len E (set_j a b)) n); [apply bset_le_top|]. apply bset_le_some; try tauto. intros x Hx. apply H1. auto.
+      - intros [a|] [b|] [d|] Ha Hb Hd H1 H2; try apply bset_le_top; try (exfalso; eapply bset_le_top_some; eassumption).
+        rewrite bset_jv_some. apply bset_wf_some in Ha, Hb, Hd. apply bset_le_some in H1, H2; try tauto.
+        destruct (set_j_spec a b (proj1 Ha) (proj1 Hb)) as [J1 [J2 J3]].
+        assert (I : incl (set_j a b) d) by (intros x Hx; apply J1 in Hx; destruct Hx; auto).
+        assert (Len := incl_len _ _ (sorted_NoDup _ J2 (J3 (proj1 (proj2 Ha)) (proj1 (proj2 Hb)))) I).
+        replace (Z.gtb (set_len E (set_j a b)) n) with false by (symmetry; rewrite Z.gtb_ltb; apply Z.ltb_ge; lia).
+        apply bset_le_some; tauto.
+      - intros [a|] [b|] Ha Hb; try apply bset_le_top.
+        + rewrite bset_mv_some. apply bset_wf_some in Ha, Hb. destruct (set_m_spec a b (proj1 Ha) (proj1 Hb)) as [H1 [H2 H3]].
+          apply bset_le_some; try tauto. intros x Hx. apply H1 in Hx. tauto.
+        + apply bset_wf_some in Ha. apply bset_le_some; try tauto. apply incl_refl.
+      - intros [a|] [b|] Ha Hb; try apply bset_le_top.
+        + rewrite bset_mv_some. apply bset_wf_some in Ha, Hb. destruct (set_m_spec a b (proj1 Ha) (proj1 Hb)) as [H1 [H2 H3]].
+          apply bset_le_some; try tauto. intros x Hx. apply H1 in Hx. tauto.
+        + apply bset_wf_some in Hb. apply bset_le_some; try tauto. apply incl_refl.
+      - intros [a|] [b|] [d|] Ha Hb Hd H1 H2; try apply bset_le_top; try (exfalso; eapply bset_le_top_some; eassumption); try assumption.
+        rewrite bset_mv_some. apply bset_wf_some in Ha, Hb, Hd. apply bset_le_some in H1, H2; try tauto.
+        destruct (set_m_spec a b (proj1 Ha) (proj1 Hb)) as [M1 [M2 M3]].
+        apply bset_le_some; try tauto. intros x Hx. apply M1. auto.
+      - intros [a|] [b|] Ha Hb; try reflexivity.
+        rewrite bset_jv_some. apply bset_wf_some in Ha, Hb. cbn [jm BSetLat bset_join_mut].
+        rewrite set_join_mut_spec by tauto. destruct (Z.gtb (set_len E (set_j a b)) n); reflexivity.
+      - intros [a|] [b|] Ha Hb; try reflexivity.
+        + rewrite bset_mv_some. apply bset_wf_some in Ha, Hb. cbn [mm BSetLat bset_meet_mut].
+          rewrite set_meet_mut_spec by tauto. reflexivity.
+        + cbn. rewrite elist_eqb_refl. reflexivity.
+      - intros bo tp E0. injection E0 as <- <-.
+        split; [apply bset_wf_some; split; [constructor|split; [reflexivity|unfold set_len; cbn; lia]]|].
+        split; [reflexivity|]. intros a Ha. split; [|apply bset_le_top].
+        destruct a as [s|]; [|apply bset_le_top]. apply bset_wf_some in Ha. apply bset_le_some; try tauto; try (intros x []); try constructor.
+      - discriminate.
+    Qed.
+  End BSetOK.
+End SetOK.
